@@ -65,6 +65,10 @@ def items_for(prop, tier):
         for v in variants:
             for mname in ['read_subplane', 'get_trace_2d']:
                 items.append(mk_item(prop, mname, bs, rate, (2, 2), tier, v))
+    if prop == 'C18' and quick:
+        # cut files opened with preload=True (the whole data section is read at open time): thorough runs this for every method
+        for mname in ('read_inline', 'read_zslice'):
+            items.append(mk_item(prop, mname, (4, 4, 256), 8, (2, 2, 2), tier, dict(truncate=True, preload=True)))
     # a faulted call followed by a fault-free call on the same reader (no state may survive the failure)
     if prop == 'C17':
         for (bs, rate, nb) in [((4, 4, 256), 8, (2, 2, 2)), ((64, 64, 4), 2, (2, 2, 1))] + ([] if quick else [((8, 8, 64), 8, (2, 1, 2))]):
